@@ -28,7 +28,7 @@ RULE = ("stateful mostly-valid generator over 4 users with different and changin
         "1..7 weeks, intra-week epoch advances, setBoostedYieldsFactors between weeks (incl. rejected argument sets: zero "
         "minimums, cE=cF=0), percentage changes (0..10000, 10001), percentage before factors, collectUndistributedBoostedRewards by "
         "admin and non-admin, updateEnergyForUser, pause/resume, rate changes, malformed payments; energies and positions exactly at / "
-        "one off the configured minimums; factor changes right after a week change; plus 3 scripted corpus histories (sender "
+        "one off the configured minimums; factor changes right after a week change; plus scripted corpus histories (sender "
         "settles, transfers, receiver compounds; percentage before factors; nobody eligible, then collect).  non-trivial = successful "
         "user operation that pays a boosted reward for at least one week, or a collect that sweeps a non-empty week; "
         "distinct by (operation, weeks paid, binding bound, inexact division, position received from another user, "
@@ -250,6 +250,16 @@ CORPUS = [
               ["SetFactors", 100, [2, 1, 1, 1, 1]], ["Advance", 10, 7],
               ["ClaimBoosted", 1], ["Enter", 1, 5, []], ["Claim", 2, (2, 100), []],
               ["Advance", 10, 7], ["ClaimBoosted", 1], ["ClaimBoosted", 2]]),
+    # a user returns after more than USER_MAX_CLAIM_WEEKS + 1 weeks while another one claimed every week: the skipped weeks must
+    # decay his recorded energy week by week (advance_multiple_weeks), the four claimable weeks use the decayed values
+    dict(name="long-absence-energy-decays-over-skipped-weeks",
+         cfg=dict(dsc=10 ** 12, same=False, rate=10 ** 15, epoch0=5, scale=E18, late_factors=False),
+         ops=[["SetPct", 100, 2500], ["SetFactors", 100, [10, 3, 2, 1, 1]],
+              ["Energy", 1, 100000 * E18, 1000 * E18], ["Energy", 2, 100000 * E18, 1000 * E18],
+              ["Enter", 1, 50 * E18, []], ["Enter", 2, 50 * E18, []], ["Enter", 3, 50 * E18, []]]
+             + [x for _ in range(7) for x in (["Advance", 10, 7], ["ClaimBoosted", 2])]
+             + [["ClaimBoosted", 1], ["Advance", 10, 7], ["ClaimBoosted", 2], ["ClaimBoosted", 1],
+                ["Advance", 10, 14], ["Exit", 1, (1, 50 * E18)], ["ClaimBoosted", 2]]),
     dict(name="nobody-eligible-then-collect",
          cfg=dict(dsc=10 ** 12, same=False, rate=10 ** 6, epoch0=5, scale=1000, late_factors=False),
          ops=[["SetFactors", 100, [2, 1, 1, 10, 10]], ["SetPct", 100, 2500],
